@@ -47,6 +47,7 @@ class Gen:
         self.json_safe = False
         self._forced = None
         self._reserved = None
+        self.big_unions = True         # now and then a union of 66-80 branches
         self.error_records = True      # now and then a record is declared with "type": "error" (same thing everywhere but in the JSON grammar)
         self.empty_enums = False       # enums without symbols (no datum conforms): only where no data are needed
 
@@ -312,8 +313,27 @@ class Gen:
         d["scale"] = r.choice([0, 0, 1, 2, prec, prec]) if prec >= 2 else r.choice([0, 1, 1])
         d["scale"] = min(d["scale"], prec)
 
+    def big_union(self, ns):
+        """A union with 66-80 branches (the branch index needs two bytes from position 64 on): tiny enums and records that each accept
+        one shape only, so the branch is determined by the datum."""
+        r = self.r
+        br = [{"k": "prim", "name": "null"}]
+        for i in range(r.randint(65, 79)):
+            if r.random() < 0.5:
+                full = self.full(ns, self.fresh("Be"))
+                d = {"k": "enum", "full": full, "ns": ns, "syms": ["Z%d" % i], "hasdef": False, "default": "Z%d" % i, "aliases": []}
+            else:
+                full = self.full(ns, self.fresh("Br"))
+                d = {"k": "record", "full": full, "ns": ns, "aliases": [],
+                     "fields": [{"name": "f%d" % i, "type": {"k": "prim", "name": "long"}, "hasdef": False, "default": None, "aliases": []}]}
+            self.defs[full] = d
+            br.append(d)
+        return {"k": "union", "br": br}
+
     def union(self, depth, ns):
         r = self.r
+        if self.big_unions and r.random() < 0.04:
+            return self.big_union(ns)
         n = r.choice([1, 2, 2, 2, 3, 3, 4, 5])
         br = []
         used = set()
